@@ -93,7 +93,7 @@ def parsePeer (s : String) : Option PeerKind :=
   | ["late", k, g, m] => do pure (.late (← parseNat k) (← parseNat g) (← parseNat m))
   | ["nodial", v] => do
     let v ← parseNat v
-    if v < 4 then pure (.nodial v) else none
+    if v < 5 then pure (.nodial v) else none   -- (4: the socket cannot be had - EMFILE from the dialer, a "temporary" net.Error)
   | ["vanish"] => some .vanish
   | ["deaf"] => some .deaf
   | _ => none
